@@ -216,6 +216,22 @@ fn programs(deep: bool) -> Vec<Program> {
                 }
             }
             ps.push(Program { label: format!("C interfaces bases {bases:?}"), text, kind: Kind::Reject { cyclic, what: "interface inheritance" } });
+            // the same graph over EMPTY interfaces: no operation can be inherited twice, so nothing but the loop itself can reject it
+            let mut bare = String::from("module M\n");
+            for i in 0..n {
+                let b = if bases[i].is_empty() { String::new() } else { format!(" : {}", bases[i].iter().map(|j| format!("I{j}")).collect::<Vec<_>>().join(", ")) };
+                bare.push_str(&format!("interface I{i}{b} {{}}\n"));
+            }
+            ps.push(Program { label: format!("C empty interfaces bases {bases:?}"), text: bare, kind: Kind::Reject { cyclic, what: "interface inheritance" } });
+            // ... and with the bases listed in descending order
+            if bases.iter().any(|b| b.len() > 1) {
+                let mut rev = String::from("module M\n");
+                for i in 0..n {
+                    let b = if bases[i].is_empty() { String::new() } else { format!(" : {}", bases[i].iter().rev().map(|j| format!("I{j}")).collect::<Vec<_>>().join(", ")) };
+                    rev.push_str(&format!("interface I{i}{b} {{}}\n"));
+                }
+                ps.push(Program { label: format!("C empty interfaces, bases in descending order {bases:?}"), text: rev, kind: Kind::Reject { cyclic, what: "interface inheritance" } });
+            }
             // the same graph with every interface called `Svc`, each in its own module (one file per module)
             let mut files = String::new();
             for i in 0..n {
@@ -288,9 +304,9 @@ pub fn run() -> i32 {
     let mut rep = Report::new(
         "cycles",
         if deep {
-            "DEEP: every containment graph over 3 structs/enums with out-degree <= 2 x all 8 struct/enum assignments (one of 10 wrapper forms per edge); every graph over 4 types with out-degree <= 2 (83 521 graphs, one assignment each); every graph over 2 types x every wrapper assignment to <= 3 edges; alias graphs over <= 3 aliases x every wrapper assignment; every inheritance graph over <= 3 interfaces; each compiled + validated + rendered in a child process with a 5 s watchdog"
+            "DEEP: every containment graph over 3 structs/enums with out-degree <= 2 x all 8 struct/enum assignments (one of 10 wrapper forms per edge); every graph over 4 types with out-degree <= 2 (83 521 graphs, one assignment each); every graph over 2 types x every wrapper assignment to <= 3 edges; alias graphs over <= 3 aliases x every wrapper assignment; every inheritance graph over <= 3 interfaces (with operations, empty, bases in both orders; a loop is rejected by E032); each compiled + validated + rendered in a child process with a 5 s watchdog"
         } else {
-            "every containment graph over 3 structs/enums with out-degree <= 2 x 2 struct/enum assignments (one of 10 wrapper forms per edge: plain, optional, sequence, dictionary key/value, result success/failure, nested, alias); every graph over 2 types x 10 wrappers (+ pairs); alias graphs over <= 3 aliases x 7 wrapper rotations; every inheritance graph over <= 3 interfaces; each compiled + validated + rendered in a child process with a 5 s watchdog"
+            "every containment graph over 3 structs/enums with out-degree <= 2 x 2 struct/enum assignments (one of 10 wrapper forms per edge: plain, optional, sequence, dictionary key/value, result success/failure, nested, alias); every graph over 2 types x 10 wrappers (+ pairs); alias graphs over <= 3 aliases x 7 wrapper rotations; every inheritance graph over <= 3 interfaces (with operations, empty, bases in both orders; a loop is rejected by E032); each compiled + validated + rendered in a child process with a 5 s watchdog"
         },
     );
     let ps = programs(deep);
@@ -341,6 +357,8 @@ pub fn run() -> i32 {
             Kind::Reject { cyclic, what } => {
                 rep.case(*cyclic, || input.clone());
                 if *cyclic && errors == 0 { rep.counterexample(&input, &format!("rejected: the {what} loop back on themselves"), "accepted without an error"); }
+                // an inheritance loop is rejected AS a loop (E032), not by whatever a later phase trips over
+                else if *cyclic && *what == "interface inheritance" && !diags.iter().any(|d| d.0 == "E032") { rep.counterexample(&input, "an E032 error about the inheritance loop", &format!("{:?}", diags.iter().map(|d| format!("{} {}", d.0, d.1)).collect::<Vec<_>>())); }
                 if !*cyclic && errors > 0 { rep.counterexample(&input, &format!("accepted: the {what} are acyclic"), &format!("{:?}", diags.iter().map(|d| format!("{} {}", d.0, d.1)).collect::<Vec<_>>())); }
             }
             Kind::Types { n, edges, fields } => {
